@@ -15,8 +15,8 @@ import (
 )
 
 var (
-	backgroundImageRegex = regexp.MustCompile(`(?:\(['"]?)(.*?)(?:['"]?\))`)
-	urlRegex             = regexp.MustCompile(`(?m)url\((.*?)\)`)
+	backgroundImageRegex = regexp.MustCompile(`(?s)(?:\(\s*['"]?)(.*?)(?:['"]?\s*\))`)
+	urlRegex             = regexp.MustCompile(`(?s)url\(\s*(.*?)\s*\)`)
 )
 
 func IsHTML(URL *models.URL) bool {
